@@ -4,7 +4,7 @@ from ..drivers import objects as drv
 ID = "C18"
 LEVEL = "exploration"
 TECHNIQUE = ("runtime monitoring: relational oracle over len / iter / [] / in on generated blocks, with purity checked by identity and encoding snapshots")
-RULE = ("blocks of 0..6 items of the four list-like kinds (3D, force/torque, EMG, events), labels drawn from a pool with duplicates, empty labels, case variants and surrounding blanks, 30% decoded from bytes; keys: every int in [-n-2, n+2], every present label and 11 near-miss probes, contained items, None / float / bytes / tuple / list / set keys, an item object as key, keys no stored label can equal (non-cp1252, over-long, label+NUL+tail); EMG signals with explicit channels in arbitrary order; several iterations of one block alive at once (resumed iterator, nested loops, zip(b, b)); non-trivial = every block")
+RULE = ("unsupported keys include items of the other block kinds and whole blocks (the block itself too); events hold an instant, none, or NaN; blocks of 0..6 items of the four list-like kinds (3D, force/torque, EMG, events), labels drawn from a pool with duplicates, empty labels, case variants and surrounding blanks, 30% decoded from bytes; keys: every int in [-n-2, n+2], every present label and 11 near-miss probes, contained items, None / float / bytes / tuple / list / set keys, an item object as key, keys no stored label can equal (non-cp1252, over-long, label+NUL+tail); EMG signals with explicit channels in arbitrary order; several iterations of one block alive at once (resumed iterator, nested loops, zip(b, b)); non-trivial = every block")
 ASSUMPTIONS = ["bool and numpy integer keys are not exercised"]
 REQUIRED = {t: "oracle:C18.len==iter oracle:C18.index oracle:C18.label oracle:C18.item-membership oracle:C18.bad-key oracle:C18.pure oracle:C18.interleaved-iterations c18:data3D c18:force3D c18:emg c18:events".split() for t in ("quick", "thorough")}
 
